@@ -53,3 +53,22 @@ Proof.
 Qed.
 
 Print Assumptions C06_only_the_chain_changes.
+
+(* copies and snapshots in a forest of held views: a copy is a new top-level view tracked with the value its
+   original has at that moment (C06_forest_copy); whatever is later mutated through any usable view, every view
+   that is not on the written view's trail keeps its tracked value (C06_off_trail_value_kept) and, since all
+   held views stay good (C05_forest_mutation), keeps that value's root and encoding *)
+Theorem C06_forest_copy : forall H src s vs p pc, AllGood H s vs -> nth_error s p = Some pc ->
+  let s' := s ++ [{| cty := cty pc; cback := cback pc; chook := HNone |}] in
+    run_cmd H src s (CCopy p) = (Ok tt, s') /\
+    AllGood H s' (vs ++ [nth p vs dv]) /\ Valid s' (vs ++ [nth p vs dv]) (length s) /\
+    (forall u, Valid s vs u -> Valid s' (vs ++ [nth p vs dv]) u).
+Proof. exact forest_copy. Qed.
+
+Theorem C06_off_trail_value_kept : forall s vs cm x u,
+  (forall e, In e (trail_of (length s) s vs (target cm)) -> fst (fst e) <> u) ->
+  nth u (track_mut s vs cm x) dv = nth u vs dv.
+Proof. exact track_mut_other. Qed.
+
+Print Assumptions C06_forest_copy.
+Print Assumptions C06_off_trail_value_kept.
